@@ -26,7 +26,7 @@ var c17envVals = []string{"", "1", "two words", "ünï", "$HOME", "a=b", "'q'"}
 func c17task(r *rand.Rand, names []string, self int) definition.TaskDef {
 	t := definition.TaskDef{AllowFailure: r.Intn(3) == 0}
 	for i := 0; i < r.Intn(3); i++ {
-		t.Script = append(t.Script, []string{"echo hi", "make all", "exit 1", "true # comment", "echo {{.var}}"}[r.Intn(5)])
+		t.Script = append(t.Script, []string{"echo hi", "make all", "exit 1", "true # comment", "echo {{.var}}", "cd build\nmake all", "echo a,b"}[r.Intn(7)])
 	}
 	for i := 0; i < self; i++ {
 		if r.Intn(3) == 0 {
@@ -692,6 +692,38 @@ func perturb(r *rand.Rand, v reflect.Value) (out []reflect.Value, labels []strin
 			outs = append(outs, s)
 			labs = append(labs, "swap elements")
 		}
+		// the boundaries between the entries are part of the configuration (every script entry is a command of its own):
+		// the same text distributed differently over the entries is another list (seed C17-m: lists compared after joining them)
+		outs = append(outs, append(append([]string(nil), cur...), ""))
+		labs = append(labs, "append empty element")
+		outs = append(outs, append([]string{""}, cur...))
+		labs = append(labs, "prepend empty element")
+		if len(cur) > 1 {
+			for _, sep := range []string{"\n", "", " ", ",", "; ", "\x00", "\r\n", "\t"} {
+				m := append([]string{cur[0] + sep + cur[1]}, cur[2:]...)
+				outs = append(outs, m)
+				labs = append(labs, fmt.Sprintf("merge two elements with %q", sep))
+			}
+		}
+		if len(cur) > 0 {
+			for _, sep := range []string{"\n", " ", ","} {
+				e := cur[r.Intn(len(cur))]
+				if i := strings.Index(e, sep); i >= 0 {
+					var s []string
+					done := false
+					for _, x := range cur {
+						if x == e && !done {
+							s = append(s, e[:i], e[i+len(sep):])
+							done = true
+						} else {
+							s = append(s, x)
+						}
+					}
+					outs = append(outs, s)
+					labs = append(labs, fmt.Sprintf("split an element at %q", sep))
+				}
+			}
+		}
 		for _, o := range outs {
 			out = append(out, reflect.ValueOf(o))
 		}
@@ -834,7 +866,7 @@ func mutateAll(r *rand.Rand, base definition.PipelinesDef) ([]c17mut, string) {
 func init() {
 	register(&Check{
 		ID: "C17", Level: "exploration",
-		Rule:        "three case kinds over generated definition sets (1-4 files pipelines.yml / pipelines.yaml in nested directories incl. non-ASCII names, 1-3 pipelines each over ALL fields, emitted through yaml.v2 from a generic tree; in a quarter of the valid sets and a third of the corrupted ones one file is a symbolic link to a file of another name: strategy as string, durations as strings, zero values sometimes explicit sometimes omitted): (a) valid set: LoadRecursively must succeed, satisfy an independent re-statement of every listed constraint, equal the generating definitions after defaults (SourcePath = file), and give the same result when the same files are created in another order; (b) one constraint broken in one place (19 corruption kinds incl. integer queue strategies, blank and null dependencies, duplicate name in a second file (different and verbatim content) and unparsable YAML): load must fail; (c) Equals: reflexive on a deep copy, symmetric, and false for every single-field edit produced by a REFLECTION-driven mutator over PipelinesDef -> PipelineDef -> TaskDef (int, *int incl. nil<->0, Duration, bool, string, []string append/drop/edit/swap, map[string]string add key with empty value / rename key whose value is empty / change value / remove key, map of structs add / remove / rename entry); a field of a kind the mutator cannot perturb makes the run inconclusive (exit 2), so a new field cannot be silently skipped. A situation is the corruption kind resp. (field, operator)",
+		Rule:        "three case kinds over generated definition sets (1-4 files pipelines.yml / pipelines.yaml in nested directories incl. non-ASCII names, 1-3 pipelines each over ALL fields, emitted through yaml.v2 from a generic tree; in a quarter of the valid sets and a third of the corrupted ones one file is a symbolic link to a file of another name: strategy as string, durations as strings, zero values sometimes explicit sometimes omitted): (a) valid set: LoadRecursively must succeed, satisfy an independent re-statement of every listed constraint, equal the generating definitions after defaults (SourcePath = file), and give the same result when the same files are created in another order; (b) one constraint broken in one place (19 corruption kinds incl. integer queue strategies, blank and null dependencies, duplicate name in a second file (different and verbatim content) and unparsable YAML): load must fail; (c) Equals: reflexive on a deep copy, symmetric, and false for every single-field edit produced by a REFLECTION-driven mutator over PipelinesDef -> PipelineDef -> TaskDef (int, *int incl. nil<->0, Duration, bool, string, []string append/drop/edit/swap, append/prepend an empty entry, merge two neighbouring entries with one of 8 separators (newline, nothing, blank, comma, ...), split an entry at a separator, map[string]string add key with empty value / rename key whose value is empty / change value / remove key, map of structs add / remove / rename entry); a field of a kind the mutator cannot perturb makes the run inconclusive (exit 2), so a new field cannot be silently skipped. A situation is the corruption kind resp. (field, operator)",
 		Assumptions: []string{"duplicate keys inside one YAML file are merged by yaml.v2 (last wins) and are not generated"},
 		Cases:       func(t string) int { return tierN(t, 900, 24000) },
 		RunCase:     c17LoadCase,
